@@ -204,7 +204,9 @@ Record opts := mkOpts {
   o_stream : bool;       (* resp.StreamBody || c.StreamResponseBody *)
   o_skip : bool          (* resp.SkipBody as the caller left it *)
 }.
-Record tctx := mkCtx { x_opts : opts; x_cid : nat; x_reset : bool; x_head : option head; x_got : list tsym }.
+(* x_rd: the pooled bufio.Reader (hc.AcquireReader) the call reads its response through; it belongs to the call - and to the body
+   stream the call returned - until ReleaseReader *)
+Record tctx := mkCtx { x_opts : opts; x_cid : nat; x_reset : bool; x_head : option head; x_got : list tsym; x_rd : option nat }.
 
 Inductive thread :=
 | TNone
@@ -216,14 +218,17 @@ Record st := mkSt {
   s_next : nat;                   (* next connection id *)
   s_idle : list conn;             (* HostClient.conns: most recently released first *)
   s_thr : nat -> thread;
-  s_ans : nat -> option resp      (* ghost: the response the server produced for request id *)
+  s_ans : nat -> option resp;     (* ghost: the response the server produced for request id *)
+  s_rfree : list nat;             (* HostClient.readerPool / Client.readerPool: bufio.Readers nobody uses *)
+  s_rnext : nat                   (* next fresh reader *)
 }.
 
 Inductive loc := AtIdle (i : nat) | HeldBy (t : nat).
 
 Inductive label :=
 | LAcquire (t : nat) (o : opts) (from : option nat)   (* AcquireConn: Some i = the i-th idle connection, None = dial *)
-| LWrite (t : nat) (reset : bool)                     (* req.Write + Flush ok; reset = MaxConnDuration exceeded *)
+| LWrite (t : nat) (reset : bool) (rd : option nat)   (* req.Write + Flush ok (reset = MaxConnDuration exceeded), then AcquireReader:
+                                                         Some i = the i-th pooled reader, None = a new one *)
 | LFail (t : nat) (e : outcome)                       (* any error before RoundTrip returns: deadline, EOF, write error *)
 | LRead (t : nat)                                     (* ReadLimitBody consumes one symbol *)
 | LReadEof (t : nat)                                  (* readBodyIdentity sees EOF *)
@@ -236,13 +241,15 @@ Inductive label :=
 | LSrvClose (l : loc)
 | LCleanIdle (i : nat).                               (* connsCleaner / CloseIdleConnections drops an idle connection *)
 
-Definition init (max : nat) : st := mkSt max 0 [] (fun _ => TNone) (fun _ => None).
+Definition init (max : nat) : st := mkSt max 0 [] (fun _ => TNone) (fun _ => None) [] 0.
 
 Definition set_thr (s : st) (t : nat) (v : thread) : st :=
-  mkSt (s_max s) (s_next s) (s_idle s) (fun j => if Nat.eqb j t then v else s_thr s j) (s_ans s).
-Definition set_idle (s : st) (l : list conn) : st := mkSt (s_max s) (s_next s) l (s_thr s) (s_ans s).
+  mkSt (s_max s) (s_next s) (s_idle s) (fun j => if Nat.eqb j t then v else s_thr s j) (s_ans s) (s_rfree s) (s_rnext s).
+Definition set_idle (s : st) (l : list conn) : st := mkSt (s_max s) (s_next s) l (s_thr s) (s_ans s) (s_rfree s) (s_rnext s).
 Definition set_ans (s : st) (id : nat) (r : resp) : st :=
-  mkSt (s_max s) (s_next s) (s_idle s) (s_thr s) (fun j => if Nat.eqb j id then Some r else s_ans s j).
+  mkSt (s_max s) (s_next s) (s_idle s) (s_thr s) (fun j => if Nat.eqb j id then Some r else s_ans s j) (s_rfree s) (s_rnext s).
+Definition set_rfree (s : st) (l : list nat) (n : nat) : st :=
+  mkSt (s_max s) (s_next s) (s_idle s) (s_thr s) (s_ans s) l n.
 
 Fixpoint remove_nth {A} (i : nat) (l : list A) : list A :=
   match l, i with
@@ -257,13 +264,19 @@ Fixpoint replace_nth {A} (i : nat) (v : A) (l : list A) : list A :=
   | x :: r, S j => x :: replace_nth j v r
   end.
 
-Definition add_got (x : tctx) (ts : tsym) : tctx := mkCtx (x_opts x) (x_cid x) (x_reset x) (x_head x) (x_got x ++ [ts]).
+Definition add_got (x : tctx) (ts : tsym) : tctx := mkCtx (x_opts x) (x_cid x) (x_reset x) (x_head x) (x_got x ++ [ts]) (x_rd x).
 Definition set_head (x : tctx) (s : sym) : tctx :=
   match s with
-  | SHead h | SBody (Some h) => mkCtx (x_opts x) (x_cid x) (x_reset x) (Some h) (x_got x)
+  | SHead h | SBody (Some h) => mkCtx (x_opts x) (x_cid x) (x_reset x) (Some h) (x_got x) (x_rd x)
   | _ => x
   end.
-Definition set_reset (x : tctx) (b : bool) : tctx := mkCtx (x_opts x) (x_cid x) b (x_head x) (x_got x).
+Definition set_reset (x : tctx) (b : bool) : tctx := mkCtx (x_opts x) (x_cid x) b (x_head x) (x_got x) (x_rd x).
+Definition set_rd (x : tctx) (r : nat) : tctx := mkCtx (x_opts x) (x_cid x) (x_reset x) (x_head x) (x_got x) (Some r).
+
+(* hc.ReleaseReader(br): in the error branch of RoundTrip, at the end of its buffered path, and - for a streamed body - only in the
+   close callback of the body stream *)
+Definition rel (s : st) (x : tctx) : st :=
+  match x_rd x with Some r => set_rfree s (r :: s_rfree s) (s_rnext s) | None => s end.
 
 (* resp.SkipBody during ReadLimitBody: customSkipBody || req.Header.IsHead() *)
 Definition eff_skip (o : opts) : bool := o_skip o || is_head (o_kind o).
@@ -280,8 +293,8 @@ Definition close_conn (x : tctx) : bool :=
 (* the tail of RoundTrip once ReadLimitBody returned nil *)
 Definition finish (s : st) (t : nat) (x : tctx) (k : conn) (body : bool) : st :=
   if o_stream (x_opts x) && body then set_thr s t (TRun x PHold k)            (* customStreamBody && resp.bodyStream != nil *)
-  else if close_conn x then set_thr s t (TDone x OOk false)                    (* hc.CloseConn(cc) *)
-  else set_thr (set_idle s (k :: s_idle s)) t (TDone x OOk true).             (* hc.ReleaseConn(cc) *)
+  else if close_conn x then set_thr (rel s x) t (TDone x OOk false)            (* hc.ReleaseReader(br); hc.CloseConn(cc) *)
+  else set_thr (set_idle (rel s x) (k :: s_idle s)) t (TDone x OOk true).     (* hc.ReleaseReader(br); hc.ReleaseConn(cc) *)
 
 Definition conn_at (s : st) (l : loc) : option conn :=
   match l with
@@ -303,25 +316,34 @@ Definition step (s : st) (l : label) : option st :=
           | Some i =>
               match nth_error (s_idle s) i with
               | Some k => Some (set_thr (set_idle s (remove_nth i (s_idle s))) t
-                                        (TRun (mkCtx o (c_id k) false None []) PAcq k))
+                                        (TRun (mkCtx o (c_id k) false None [] None) PAcq k))
               | None => None
               end
           | None =>
               let k := new_conn (s_next s) in
-              Some (set_thr (mkSt (s_max s) (S (s_next s)) (s_idle s) (s_thr s) (s_ans s)) t
-                            (TRun (mkCtx o (c_id k) false None []) PAcq k))
+              Some (set_thr (mkSt (s_max s) (S (s_next s)) (s_idle s) (s_thr s) (s_ans s) (s_rfree s) (s_rnext s)) t
+                            (TRun (mkCtx o (c_id k) false None [] None) PAcq k))
           end
       | _ => None
       end
-  | LWrite t reset =>
+  | LWrite t reset rd =>
       match s_thr s t with
-      | TRun x PAcq k => Some (set_thr s t (TRun (set_reset x reset) PHead (push_req k (mkReq t (o_kind (x_opts x))))))
+      | TRun x PAcq k =>
+          let k1 := push_req k (mkReq t (o_kind (x_opts x))) in
+          match rd with
+          | Some i =>
+              match nth_error (s_rfree s) i with
+              | Some r => Some (set_thr (set_rfree s (remove_nth i (s_rfree s)) (s_rnext s)) t (TRun (set_rd (set_reset x reset) r) PHead k1))
+              | None => None
+              end
+          | None => Some (set_thr (set_rfree s (s_rfree s) (S (s_rnext s))) t (TRun (set_rd (set_reset x reset) (s_rnext s)) PHead k1))
+          end
       | _ => None
       end
   | LFail t e =>
       match s_thr s t, e with
       | _, OOk => None
-      | TRun x p k, _ => if is_stream_phase p then None else Some (set_thr s t (TDone x e false))    (* hc.CloseConn(cc) *)
+      | TRun x p k, _ => if is_stream_phase p then None else Some (set_thr (rel s x) t (TDone x e false))    (* ReleaseReader; CloseConn *)
       | _, _ => None
       end
   | LRead t =>
@@ -336,7 +358,7 @@ Definition step (s : st) (l : label) : option st :=
                   match rd_sym (s_max s) (eff_skip (x_opts x)) (o_stream (x_opts x)) p sy with
                   | RMore p1 => Some (set_thr s t (TRun x1 p1 k1))
                   | RDone body => Some (finish s t x1 k1 body)
-                  | RFail e => Some (set_thr s t (TDone x1 e false))
+                  | RFail e => Some (set_thr (rel s x) t (TDone x1 e false))
                   end
               | _ => None
               end
@@ -386,8 +408,8 @@ Definition step (s : st) (l : label) : option st :=
           if is_stream_phase p then
             (* closeConn || resp.ConnectionClose() || wErr != nil || unread *)
             if close_conn x || werr || stream_unread p
-            then Some (set_thr s t (TDone x OOk false))
-            else Some (set_thr (set_idle s (k :: s_idle s)) t (TDone x OOk true))
+            then Some (set_thr (rel s x) t (TDone x OOk false))
+            else Some (set_thr (set_idle (rel s x) (k :: s_idle s)) t (TDone x OOk true))
           else None
       | _ => None
       end
